@@ -244,3 +244,73 @@ Proof.
     rewrite byte_cmp_masked by assumption.
     now destruct (bytes_cmp a1 p).
 Qed.
+
+(** * New: index arithmetic *)
+Lemma new_arith f t : 0 <= f <= t -> (f =? t) && (Z.land f 7 =? 0) = false ->
+  let fb := Z.shiftr f 3 in let tb := Z.shiftr (t + 7) 3 in let k := t - 8 * (tb - 1) in
+  fb = f / 8 /\ 0 <= fb < tb /\ 1 <= k <= 8 /\ Z.land (8 - t) 7 = 8 - k /\ 8 * tb < t + 8.
+Proof.
+  intros H Hc. cbv zeta. rewrite !Z.shiftr_div_pow2 by lia. change (2 ^ 3) with 8.
+  change 7 with (Z.ones 3) in *. rewrite !Z.land_ones in * by lia. change (2 ^ 3) with 8 in *.
+  change (Z.ones 3) with 7.
+  assert (Hc' : ~ (f = t /\ f mod 8 = 0)).
+  { intros [E1 E2]. rewrite E2 in Hc. subst. rewrite Z.eqb_refl in Hc. discriminate. }
+  clear Hc. Z.div_mod_to_equations. lia.
+Qed.
+
+Lemma rmask8_eq q : 0 <= q < 8 -> rmask8 q = 256 - 2 ^ q.
+Proof.
+  intros H.
+  assert (T : forallb (fun q => rmask8 q =? 256 - 2 ^ q) (zrange 8) = true) by (vm_compute; reflexivity).
+  apply Z.eqb_eq. apply (forall_zrange _ _ T q H).
+Qed.
+
+(** * New on explicit shapes *)
+Lemma sliceZ_mid (s0 m r : list Z) lo hi : lo = zlen s0 -> hi = lo + zlen m ->
+  sliceZ (s0 ++ m ++ r) lo hi = Some m.
+Proof.
+  intros -> ->. unfold sliceZ. rewrite !zlen_app.
+  pose proof (zlen_nonneg s0). pose proof (zlen_nonneg m). pose proof (zlen_nonneg r).
+  replace ((0 <=? zlen s0) && (zlen s0 <=? zlen s0 + zlen m) && (zlen s0 + zlen m <=? zlen s0 + (zlen m + zlen r)))
+    with true by (symmetry; rewrite !andb_true_iff, !Z.leb_le; lia).
+  f_equal. replace (zlen s0 + zlen m - zlen s0) with (zlen m) by lia. unfold zlen. rewrite !Nat2Z.id.
+  rewrite skipn_app, Nat.sub_diag, skipn_all. cbn [app skipn].
+  rewrite firstn_app, Nat.sub_diag, firstn_O, app_nil_r. apply firstn_all.
+Qed.
+
+Lemma updZ_app_at (a : list Z) y r i z : i = zlen a -> updZ (a ++ y :: r) i z = a ++ z :: r.
+Proof.
+  intros ->. unfold updZ, zlen. rewrite Nat2Z.id.
+  rewrite firstn_app, Nat.sub_diag, firstn_O, app_nil_r, firstn_all.
+  f_equal. f_equal. rewrite skipn_app. rewrite skipn_all2 by lia.
+  replace (length a + 1 - length a)%nat with 1%nat by lia. reflexivity.
+Qed.
+
+Lemma copyZ_fresh (src : list Z) : copyZ (repeat 0 (length src + 1)) src = src ++ [0].
+Proof.
+  unfold copyZ. rewrite repeat_length. replace (Nat.min (length src + 1) (length src)) with (length src) by lia.
+  rewrite firstn_all. f_equal. rewrite repeat_app, skipn_app, repeat_length, Nat.sub_diag.
+  rewrite skipn_all2 by (rewrite repeat_length; lia). reflexivity.
+Qed.
+
+Lemma New_shape s0 mid x s2 f t :
+  Z.shiftr f 3 = zlen s0 -> Z.shiftr (t + 7) 3 = zlen s0 + zlen mid + 1 ->
+  (f =? t) && (Z.land f 7 =? 0) = false ->
+  New (s0 ++ mid ++ x :: s2) f t =
+  Some (mid ++ [Z.land x (rmask8 (Z.land (8 - t) 7)); rmask8 (Z.land (8 - t) 7)]).
+Proof.
+  intros Hf Ht Hc. unfold New. rewrite Hc. cbv zeta. rewrite Hf, Ht.
+  pose proof (zlen_nonneg mid) as Hm.
+  replace (zlen s0 + zlen mid + 1 - zlen s0) with (zlen mid + 1) by lia.
+  destruct (Z.ltb_spec (zlen mid + 1 + 1) 0); [lia|].
+  change (mid ++ x :: s2) with (mid ++ [x] ++ s2). rewrite (app_assoc mid).
+  rewrite (sliceZ_mid s0 (mid ++ [x]) s2) by (rewrite ?zlen_app; change (zlen [x]) with 1; lia).
+  replace (Z.to_nat (zlen mid + 1 + 1)) with (length (mid ++ [x]) + 1)%nat
+    by (rewrite app_length; unfold zlen; cbn [length]; lia).
+  rewrite copyZ_fresh. rewrite <- app_assoc. cbn [app].
+  rewrite nthZ_app_at by lia. rewrite updZ_app_at by lia.
+  rewrite nthZ_last2b by lia.
+  change (mid ++ [Z.land x (rmask8 (Z.land (8 - t) 7)); 0]) with (mid ++ [Z.land x (rmask8 (Z.land (8 - t) 7))] ++ [0]).
+  rewrite app_assoc. rewrite updZ_app_at by (rewrite zlen_app; change (zlen [Z.land x (rmask8 (Z.land (8 - t) 7))]) with 1; lia).
+  now rewrite <- app_assoc.
+Qed.
